@@ -306,7 +306,9 @@ extern MPT_INTERFACE(metatype) *_mpt_iterator_range(MPT_STRUCT(value) *val)
 		
 		/* equal or non-finite bounds and steps yield no element count
 		 * (NaN compares false above and must not reach the integer conversion) */
-		if (step > (r.max - r.min)
+		/* lower step limit underflows for tiny distances, zero step has no count */
+		if (!(step > 0.0)
+		  || step > (r.max - r.min)
 		  || step < (r.max - r.min) * 1e-6
 		  || !((r.max - r.min) / step >= 1.0)) {
 			errno = ERANGE;
